@@ -257,6 +257,7 @@ DoReplay(o) ==
 DoSnapshot(ord) ==
   /\ mode = "live"
   /\ sref' = [has |-> TRUE, idx |-> applied, live |-> DOMAIN streams, frozen |-> <<>>,
+              lastPub |-> lastPub,     \* (b7ccaa8: the snapshot carries the last published activity index, by value)
               heads |-> [s \in DOMAIN streams |-> HeadOf(streams[s])],
               groups |-> [g \in {h \in GroupIds : groups[h].exists} |->
                             [members |-> [i \in DOMAIN ord[g] |-> [c |-> ord[g][i], S |-> groups[g].subs[ord[g][i]]]],
@@ -270,7 +271,7 @@ Preview(r) == [s \in r.live \cup DOMAIN r.frozen |->
 
 DoPersist ==
   /\ sref.has
-  /\ snap' = [has |-> TRUE, idx |-> sref.idx, streams |-> Preview(sref), heads |-> sref.heads, groups |-> sref.groups]
+  /\ snap' = [has |-> TRUE, idx |-> sref.idx, streams |-> Preview(sref), heads |-> sref.heads, groups |-> sref.groups, lastPub |-> sref.lastPub]
   /\ sref' = NoRef
   /\ obs' = [a |-> "Persist", err |-> ""]
   /\ UNCHANGED <<streams, groups, grec, lastPub, disk, applied, mode, nrep, pre>>
@@ -281,7 +282,7 @@ DoPersist ==
 \* The persisted snapshot must be a well-formed one (size header = payload) whatever o changes.
 DoPersistWith(o) ==
   /\ mode = "live" /\ sref.has
-  /\ snap' = [has |-> TRUE, idx |-> sref.idx, streams |-> Preview(sref), heads |-> sref.heads, groups |-> sref.groups]
+  /\ snap' = [has |-> TRUE, idx |-> sref.idx, streams |-> Preview(sref), heads |-> sref.heads, groups |-> sref.groups, lastPub |-> sref.lastPub]
   /\ LET r == ApplyOp(o, applied + 1, FALSE) IN
        /\ streams' = r.streams /\ groups' = r.groups /\ grec' = r.grec /\ lastPub' = r.lastPub /\ disk' = r.disk
        /\ obs' = [a |-> "PersistWith", err |-> r.err]
@@ -323,6 +324,8 @@ RestoreEffect(running) ==
                      THEN AddMembers(NewGroup(snap.groups[g].coord, snap.groups[g].epoch), snap.groups[g].members, PC(ss))
                      ELSE NoGroup]
      /\ grec' = [g \in GroupIds |-> g \in DOMAIN snap.groups /\ ~running]
+     \* the activity index of the snapshot is taken over (0 = a snapshot that carries none)
+     /\ lastPub' = IF snap.lastPub > 0 THEN snap.lastPub ELSE lastPub
      /\ applied' = snap.idx
 
 DoRestore ==
@@ -330,7 +333,7 @@ DoRestore ==
   /\ RestoreEffect(FALSE)
   /\ mode' = "replay"
   /\ obs' = [a |-> "Restore", err |-> ""]
-  /\ UNCHANGED <<lastPub, nrep, sref, snap, pre>>
+  /\ UNCHANGED <<nrep, sref, snap, pre>>
 
 \* A LIVE server is handed a snapshot (Raft InstallSnapshot on a follower whose
 \* log was compacted away): Server.Restore on a server that HAS state.  "The FSM
@@ -347,7 +350,7 @@ DoInstall ==
   /\ RestoreEffect(TRUE)
   /\ mode' = "catchup"
   /\ obs' = [a |-> "Install", err |-> ""]
-  /\ UNCHANGED <<lastPub, nrep, sref, snap>>
+  /\ UNCHANGED <<nrep, sref, snap>>
 
 DoCatchup(o) ==
   /\ mode = "catchup"
